@@ -192,7 +192,7 @@ def show_statement_to_info_schema_query(
         if db:
             select = select.where(f"table_schema = '{db}'")
         like = show.text("like")
-        if like:
+        if show.args.get("like") is not None:  # LIKE '' is a filter too
             select = select.where(f"column_name LIKE '{like}'")
     elif kind == "TABLES":
         outputs = ['table_name AS "Table_name"']
@@ -205,14 +205,14 @@ def show_statement_to_info_schema_query(
             raise MysqlError("No database selected.", code=ErrorCode.NO_DB_ERROR)
         select = select.where(f"table_schema = '{db}'")
         like = show.text("like")
-        if like:
+        if show.args.get("like") is not None:  # LIKE '' is a filter too
             select = select.where(f"table_name LIKE '{like}'")
     elif kind == "DATABASES":
         select = exp.select('schema_name AS "Database"').from_(
             "information_schema.schemata"
         )
         like = show.text("like")
-        if like:
+        if show.args.get("like") is not None:  # LIKE '' is a filter too
             select = select.where(f"schema_name LIKE '{like}'")
     elif kind == "INDEX":
         outputs = [
